@@ -25,7 +25,7 @@ var voidEls = map[string]bool{"br": true, "hr": true, "img": true, "input": true
 var rawTextEls = []string{"script", "style", "textarea", "title", "iframe", "noscript", "noembed", "noframes", "plaintext", "xmp"}
 
 var attrNames = []string{"title", "id", "class", "lang", "dir", "align", "width", "height", "href", "src", "cite", "rel",
-	"target", "alt", "type", "name", "value", "sandbox", "crossorigin", "style", "data-x", "datetime"}
+	"target", "alt", "type", "name", "value", "sandbox", "crossorigin", "style", "data-x", "datetime", "onclick", "onerror"}
 
 var hostileAttrs = []string{"onclick", "onerror", "onload", "formaction", "srcdoc", "xlink:href", "data-xmlfoo", "data-UP", "xmlns"}
 
@@ -647,7 +647,8 @@ func (g *inGen) text() string {
 		case 1:
 			sb.WriteString(g.r.Pick([]string{"\r\n", "\r", "\n", "\t", " ", "  "}))
 		case 2:
-			sb.WriteString(g.r.Pick([]string{"\x00", "\xff\xfe", "\xc3", "\u00e9", "\u65e5\u672c", "\U0001F600", "\u00a0", "\u2028", "\ufeff"}))
+			sb.WriteString(g.r.Pick([]string{"\x00", "\xff\xfe", "\xc3", "\u00e9", "\u65e5\u672c", "\U0001F600", "\u00a0", "\u2028", "\ufeff",
+				"\u202e", "\u202a", "\u2066", "\u2069", "\u200f", "a\u202eb\u202c"}))
 		case 3:
 			sb.WriteString(g.r.Pick([]string{"<", ">", "<<", "< b", "a<b", "1 < 2 > 0", "\"", "'", "`", "=", "/"}))
 		default:
@@ -957,6 +958,21 @@ func GenManyDistinct(r *RNG, v Vocab, fresh string) []byte {
 		default:
 			fmt.Fprintf(&sb, `<p style="width: %dpx; color: red">p</p>`, k)
 		}
+	}
+	return []byte(sb.String())
+}
+
+// GenStyleHeavy produces 60-110 KB of elements that each carry a few inline style declarations:
+// per-document budgets and counters of style work.
+func GenStyleHeavy(r *RNG, v Vocab) []byte {
+	var sb strings.Builder
+	target := r.Range(60000, 90000)
+	for sb.Len() < target {
+		prop := r.Pick(v.StyleProps)
+		if len(v.HotProps) > 0 && r.Bool(0.7) {
+			prop = r.Pick(v.HotProps)
+		}
+		fmt.Fprintf(&sb, `<p style="%s: %s; color: red; width: %dpx; text-align: center">t</p>`, prop, r.Pick(v.StyleVals), r.Intn(500))
 	}
 	return []byte(sb.String())
 }
